@@ -96,7 +96,22 @@ pub fn events_for(g: &ModuleGraph, files: &HashMap<String, String>, expect: Opti
     out.push(json!({"ev": "symtab", "module": id_of(url), "tab": table_json(m)}));
     let mut keys: Vec<String> = m.exports(&root).resolved.keys().cloned().collect();
     keys.sort();
-    let mut e = json!({"ev": "exports", "module": id_of(url), "keys": keys});
+    // which module provides each resolved export (following re-export-all paths to the final export)
+    let mut providers = serde_json::Map::new();
+    for (name, item) in &m.exports(&root).resolved {
+      let mut cur = item;
+      loop {
+        match cur {
+          deno_graph::symbols::ResolvedExportOrReExportAllPath::Export(e) => {
+            providers.insert(name.clone(), json!(id_of(e.module.specifier().as_str())));
+            break;
+          }
+          deno_graph::symbols::ResolvedExportOrReExportAllPath::ReExportAllPath(p) => cur = &p.next,
+        }
+      }
+    }
+    let mut e = json!({"ev": "exports", "module": id_of(url), "keys": keys, "providers": providers,
+                       "own": expect.map(|x| x["__own"][id_of(url)].clone()).unwrap_or(json!([]))});
     if let Some(exp) = expect {
       e["expect"] = exp[id_of(url)].clone();
       e["hasExpect"] = json!(true);
